@@ -894,6 +894,16 @@ class _Run:
                 )
             else:
                 self.res.probe("click_equals_fresh_tree")
+        for e in evs:
+            # whoever is offered the press is under the pointer: the coordinates it is given lie inside the size it is given
+            lcols, lrows = e[1]._dims(e[2])
+            ecol, erow = e[3][0], e[3][1]
+            if not (0 <= ecol < lcols and 0 <= erow < lrows):
+                self.violate("C08.2", "press-offered-to-a-widget-it-is-not-on", f"step {i}: press at {(x, y)} size {self.size}: leaf {e[1].lid} of size {e[2]} ({lcols}x{lrows}) was offered it at ({ecol}, {erow}); tree {self.describe(self.root)}")
+                break
+        else:
+            if evs:
+                self.res.probe("press_coordinates_inside_the_widget")
         rb = self.root.base
         if self.root.kind == "Columns" and getattr(rb, "dividechars", 0) and self.root.kids and getattr(self, "reentrant_edits", 0) == edits0:
             # a press on a divider cell of the root Columns belongs to no child: nobody sees it, the focus stays
